@@ -305,9 +305,14 @@ def gen_model(rnd, opts=None):
         doms.append([a, a + rnd.choice(wchoices)])
     for k in range(min(D, opts.get("bool_doms", 0))):
         doms[k] = [0, 1]
-    if opts.get("big") and not opts.get("nonneg") and rnd.random() < 0.1:  # (cost tables have one column per value)
-        s = rnd.choice([10 ** 6, -(10 ** 6)])
+    far = False
+    if opts.get("big") and not opts.get("nonneg") and rnd.random() < opts.get("big_p", 0.1):  # (cost tables have one column per value)
+        s = rnd.choice([10 ** 6, -(10 ** 6), 10 ** 6, -(10 ** 6), 2 ** 30, -(2 ** 30) - 5, 1500000000, -1500000000])
         doms = [[a + s, b + s] for a, b in doms]
+        if abs(s) > 2 ** 28:
+            # bounds that add up beyond 32 bits; linear constraints would leave their magnitude contract
+            types = [t for t in types if not t.startswith("affine")] or ["alldifferent"]
+            far = True
     idx = list(range(D))
     off = [0] * D
     for _ in range(rnd.randint(min(opts.get("min_alias", 0), opts.get("max_alias", 3)), opts.get("max_alias", 3))):
@@ -316,6 +321,8 @@ def gen_model(rnd, opts=None):
     V = len(idx)
     vdom = [[doms[idx[v]][0] + off[v], doms[idx[v]][1] + off[v]] for v in range(V)]
     tags = set()
+    if far:
+        tags.add("bounds_add_up_beyond_32_bits")
     props = []
     allow_repeat = opts.get("repeat", True)
 
